@@ -36,6 +36,9 @@ fn decode_n<const N: usize>() {
 /// a run of K carriage returns before the newline: exactly ONE is stripped. The shape of the input is fixed (so every loop in
 /// the decoder has a concrete trip count and a data-dependent loop in a changed decoder stays decidable), the bytes around it
 /// are symbolic: [x] CR^K LF [y]  ->  line = [x] CR^(K-1), remainder = [y]
+/// stub for the CR-run harnesses: the bytes are ASCII by construction, so the UTF-8 check (whose error path dominates the cost of
+/// a symbolic-length buffer) is replaced by the unchecked conversion; the UTF-8 behaviour itself is the subject of c15_decode_N
+fn ascii_into_string(buf: Bytes) -> io::Result<Option<String>> { Ok(Some(unsafe { String::from_utf8_unchecked(buf.to_vec()) })) }
 fn decode_cr_run<const K: usize>() {
     // x ranges over two ASCII bytes only (an if-then-else of constants folds away in every comparison with CR / LF)
     let x: u8 = if kani::any() { b'a' } else { 0x7f }; let y: u8 = kani::any();
@@ -58,9 +61,9 @@ fn decode_cr_run<const K: usize>() {
     }
     core::mem::forget(src);
 }
-#[kani::proof] #[kani::unwind(10)] fn c15_decode_cr_run_1() { decode_cr_run::<1>() }
-#[kani::proof] #[kani::unwind(10)] fn c15_decode_cr_run_2() { decode_cr_run::<2>() }
-#[kani::proof] #[kani::unwind(10)] fn c15_decode_cr_run_3() { decode_cr_run::<3>() }
+#[kani::proof] #[kani::unwind(10)] #[kani::stub(crate::lines::try_into_utf8, ascii_into_string)] fn c15_decode_cr_run_1() { decode_cr_run::<1>() }
+#[kani::proof] #[kani::unwind(10)] #[kani::stub(crate::lines::try_into_utf8, ascii_into_string)] fn c15_decode_cr_run_2() { decode_cr_run::<2>() }
+#[kani::proof] #[kani::unwind(10)] #[kani::stub(crate::lines::try_into_utf8, ascii_into_string)] fn c15_decode_cr_run_3() { decode_cr_run::<3>() }
 #[kani::proof] #[kani::unwind(10)] fn c15_decode_0() { decode_n::<0>() }
 #[kani::proof] #[kani::unwind(10)] fn c15_decode_1() { decode_n::<1>() }
 #[kani::proof] #[kani::unwind(10)] fn c15_decode_2() { decode_n::<2>() }
